@@ -167,7 +167,7 @@ func (x *explorer) emit(op, kind string, hist string, s flows.Session, sp flows.
 	if s != nil && pan == "" {
 		line = x.tracker.project(s, sp)
 	} else {
-		line = &TLine{Status: "none", Runs: []TRun{}, Events: []TEvent{}}
+		line = &TLine{Status: "none", Runs: []TRun{}, Events: []TEvent{}, Segs: []PSeg{}}
 	}
 	line.Src = x.fx.name + "|" + hist
 	line.Op, line.Kind = op, kind
